@@ -705,7 +705,10 @@ theorem sp_applyItem (c : Ctx) (w : Wid) (acc acc' : Store × Bals) (it : Model.
   split at h
   · cases h
   · split at h
-    · cases h
+    · -- an indexed transaction the filter finds irrelevant is skipped (fix D41): nothing changes
+      simp only [pure, Except.pure] at h
+      cases h
+      rfl
     · split at h
       · rename_i r hr
         simp only [pure, Except.pure] at h
